@@ -4,6 +4,7 @@ import FiberModel.C12.Known
 Driver for C12. Case fields after the id (see harness/cmd/c12/main.go):
   rtc keys vals levels oldKeys oldVals [wi<positions>] | issued c2 seen2 c3 seen3
   rtt keys vals levels oldKeys oldVals [wi<positions>] | issued st2 seen2 exp2 st3 seen3
+  rff keys vals levels mode | issued st2 relaySeen issued2 exp2 st3 seen3 exp3 st4 seen4
   dec cookies | steps allocs
 -/
 open B DriverUtil C12
@@ -177,6 +178,63 @@ def collisionTags (ms : List Msg) : List String :=
   | [] => []
   | m :: _ => [if m.old then "nt-keyed-old-first" else "nt-keyed-flash-first"]
 
+def parseMode : String → Option RelayMode
+  | "same" => some .same
+  | "rev" => some .rev
+  | "chg" => some .chg
+  | _ => none
+
+/-- re-flash exchange (verbatim client): /go, /relay (consumes + redirects again), /show, /show -/
+def handleRff (id : String) (s : Script) (mode : RelayMode)
+    (issued st2 seen2 issued2 exp2 st3 seen3 exp3 st4 seen4 : String) : Except String Verdict := do
+  let some iss := parseOpt issued | throw "outside-domain: issued"
+  let some iss2 := parseOpt issued2 | throw "outside-domain: issued2"
+  let some st2n := st2.toNat? | throw "outside-domain: st2"
+  let some st3n := st3.toNat? | throw "outside-domain: st3"
+  let some st4n := st4.toNat? | throw "outside-domain: st4"
+  let implObs := s!"{issued};{st2};{seen2};{issued2};{exp2};{st3};{seen3};{exp3};{st4};{seen4}"
+  let flash := expectedFlash s.calls
+  let (s2, k2) := splitSeen seen2
+  let (s3, k3) := splitSeen seen3
+  let (s4, k4) := splitSeen seen4
+  let spec := specRelay flash mode { issued := iss, st2 := st2n, seen2 := s2, keyed2 := k2, issued2 := iss2, exp2 := exp2 == "1", st3 := st3n, seen3 := s3, keyed3 := k3, exp3 := exp3 == "1", st4 := st4n, seen4 := s4, keyed4 := k4 } s.keys
+  let known := if Known.K1for spec true flash then some "K1" else none
+  let ms := runOps (interleave s.calls [] [])
+  let wire := issueOnWire ms
+  -- one hop of a verbatim client carrying `jar` to a /show handler
+  let hop (pool : Slice) (jar : Jar) : String × Slice × Jar × Bool :=
+    match jar with
+    | some v =>
+      if !v.all validHeaderValueByte then ("400;nohandler", pool, jar, false)
+      else
+        let (m, pool', sc) := serve pool v []
+        (s!"200;{renderObs s.keys m}", pool', Jar.apply (fun _ => true) jar sc, sc == some none)
+    | none =>
+      let (m, pool', sc) := serve pool [] []
+      (s!"200;{renderObs s.keys m}", pool', jar, sc == some none)
+  let (modelObs, tags) : String × List String :=
+    match wire with
+    | some v =>
+      if !v.all validHeaderValueByte then
+        (s!"{toHexField v};400;nohandler;none;0;400;nohandler;0;400;nohandler", ["rejected-by-server"])
+      else if !transparentSafe v then (implObs, ["outside-model"])
+      else
+        let (m2, pool2, sc2) := serveRelay Slice.empty v mode
+        let issued2 : Option Bytes := match sc2 with | some (some v2) => some (sanitize v2) | _ => none
+        let jar2 : Jar := match issued2 with | some v2 => some v2 | none => Jar.apply (fun _ => true) (some v) sc2
+        if (issued2.map transparentSafe) == some false ∧ (issued2.map (·.all validHeaderValueByte)) == some true then (implObs, ["outside-model"])
+        else
+          let (o3, pool3, jar3, e3) := hop pool2 jar2
+          let (o4, _, _, _) := hop pool3 jar3
+          (s!"{toHexField v};302;{renderObs s.keys m2};{optHex issued2};{bit (sc2 == some none)};{o3};{bit e3};{o4}",
+           ["relayed", "nt-rff-" ++ toString (repr mode)])
+    | none =>
+      let (m2, pool2, sc2) := serveRelay Slice.empty [] mode
+      let (o3, pool3, jar3, e3) := hop pool2 none
+      let (o4, _, _, _) := hop pool3 jar3
+      (s!"none;302;{renderObs s.keys m2};none;{bit (sc2 == some none)};{o3};{bit e3};{o4}", ["nocookie"])
+  pure { id := id, modelObs := modelObs, implObs := implObs, spec := spec, known := known, tags := "rff" :: (tags ++ scriptTags s) }
+
 structure Step where
   status : Nat
   seen : String
@@ -235,6 +293,9 @@ def handleCase (f : List String) : Except String Verdict := do
     handleRtc id (← parseScript ks vs ls oks ovs (some wi)) issued c2 seen2 c3 seen3
   | [id, "rtt", ks, vs, ls, oks, ovs, wi, issued, st2, seen2, exp2, st3, seen3] =>
     handleRtt id (← parseScript ks vs ls oks ovs (some wi)) issued st2 seen2 exp2 st3 seen3
+  | [id, "rff", ks, vs, ls, mode, issued, st2, seen2, issued2, exp2, st3, seen3, exp3, st4, seen4] =>
+    let some m := parseMode mode | throw "outside-domain: relay mode"
+    handleRff id (← parseScript ks vs ls "-" "-" (some "wi-")) m issued st2 seen2 issued2 exp2 st3 seen3 exp3 st4 seen4
   | [id, "dec", cookies, steps, allocs] => handleDec id cookies steps allocs
   | _ => throw s!"outside-domain: unrecognised case shape ({f.length} fields)"
 
